@@ -716,4 +716,136 @@ theorem C08_merc_ell_reproject_within (c : MercC ℝ) (hs : c.sr.sphere = false)
         mul_le_mul_of_nonneg_left this hak.le
     _ = 2e-10 * (c.sr.a * c.k0) := by ring
 
+/-! ## the 1 cm clause for the ellipsoidal equidistant conic -/
+
+theorem mlfn_lipschitz (e0 e1 e2 e3 x y : ℝ) :
+    |mlfn e0 e1 e2 e3 x - mlfn e0 e1 e2 e3 y| ≤ (|e0| + (2 * |e1| + 4 * |e2| + 6 * |e3|)) * |x - y| := by
+  have h := sinSeries_lipschitz e1 e2 e3 x y
+  have e : mlfn e0 e1 e2 e3 x - mlfn e0 e1 e2 e3 y
+      = e0 * (x - y) - ((e1 * sin (2 * x) - e2 * sin (4 * x) + e3 * sin (6 * x))
+          - (e1 * sin (2 * y) - e2 * sin (4 * y) + e3 * sin (6 * y))) := by
+    simp only [mlfn, sin_real]; norm_num; ring
+  rw [e]
+  calc _ ≤ |e0 * (x - y)| + |(e1 * sin (2 * x) - e2 * sin (4 * x) + e3 * sin (6 * x))
+          - (e1 * sin (2 * y) - e2 * sin (4 * y) + e3 * sin (6 * y))| := abs_sub _ _
+    _ ≤ |e0| * |x - y| + (2 * |e1| + 4 * |e2| + 6 * |e3|) * |x - y| := by rw [abs_mul]; linarith
+    _ = _ := by ring
+
+/-- **eqdc_reproject_within** (ellipsoidal equidistant conic, the 1 cm clause over ℝ): project, un-project and
+project again all succeed and reproduce x and y within `a·(|e0| + d)·1.2e-11` — 0.08 mm for a = 6.4e6 m. -/
+theorem C08_eqdc_reproject_within (c : EqdcC ℝ) (hs : c.sr.sphere = false) (ha : 0 < c.sr.a) (h0 : 0 < c.e0)
+    (hdom : 21 * (2 * |c.e1| + 4 * |c.e2| + 6 * |c.e3|) ≤ c.e0) (lon lat : ℝ)
+    (sgn : (0 < c.ns ∧ mlfn c.e0 c.e1 c.e2 c.e3 lat < c.g) ∨ (c.ns < 0 ∧ c.g < mlfn c.e0 c.e1 c.e2 c.e3 lat))
+    (hlon : |lon| ≤ sPi) (hdl : |lon - c.sr.long0| ≤ sPi)
+    (h1 : -π < c.ns * (lon - c.sr.long0)) (h2 : c.ns * (lon - c.sr.long0) ≤ π) :
+    ∃ x y lat' x' y', fwdEqdc c lon lat = .ok (x, y) ∧ invEqdc c x y = .ok (lon, lat') ∧
+      fwdEqdc c lon lat' = .ok (x', y') ∧
+      |x' - x| ≤ c.sr.a * (|c.e0| + (2 * |c.e1| + 4 * |c.e2| + 6 * |c.e3|)) * 1.2e-11 ∧
+      |y' - y| ≤ c.sr.a * (|c.e0| + (2 * |c.e1| + 4 * |c.e2| + 6 * |c.e3|)) * 1.2e-11 := by
+  obtain ⟨lat', hinv, hb⟩ := C08_eqdc_inv_within c hs ha h0 hdom lon lat sgn hlon hdl h1 h2
+  set L := |c.e0| + (2 * |c.e1| + 4 * |c.e2| + 6 * |c.e3|) with hL
+  have hL0 : 0 ≤ L := by positivity
+  have hf : ∀ t, fwdEqdc c lon t = .ok (c.sr.x0 + c.sr.a * (c.g - mlfn c.e0 c.e1 c.e2 c.e3 t) * sin (c.ns * adjustLon (lon - c.sr.long0)),
+      c.sr.y0 + c.rh - c.sr.a * (c.g - mlfn c.e0 c.e1 c.e2 c.e3 t) * cos (c.ns * adjustLon (lon - c.sr.long0))) := by
+    intro t; simp [fwdEqdc, hs]
+  rw [hf lat] at hinv
+  simp only [Except.bind] at hinv
+  refine ⟨_, _, lat', _, _, hf lat, hinv, hf lat', ?_, ?_⟩
+  all_goals
+    have hm := mlfn_lipschitz c.e0 c.e1 c.e2 c.e3 lat' lat
+    have hm2 : |mlfn c.e0 c.e1 c.e2 c.e3 lat' - mlfn c.e0 c.e1 c.e2 c.e3 lat| ≤ L * 1.2e-11 :=
+      le_trans hm (mul_le_mul_of_nonneg_left hb hL0)
+  · have e : c.sr.x0 + c.sr.a * (c.g - mlfn c.e0 c.e1 c.e2 c.e3 lat') * sin (c.ns * adjustLon (lon - c.sr.long0))
+        - (c.sr.x0 + c.sr.a * (c.g - mlfn c.e0 c.e1 c.e2 c.e3 lat) * sin (c.ns * adjustLon (lon - c.sr.long0)))
+        = -(c.sr.a * (mlfn c.e0 c.e1 c.e2 c.e3 lat' - mlfn c.e0 c.e1 c.e2 c.e3 lat)) * sin (c.ns * adjustLon (lon - c.sr.long0)) := by
+      ring
+    rw [e, abs_mul, abs_neg, abs_mul, abs_of_pos ha]
+    calc _ ≤ c.sr.a * (L * 1.2e-11) * 1 :=
+          mul_le_mul (mul_le_mul_of_nonneg_left hm2 ha.le) (abs_sin_le_one _) (abs_nonneg _) (by positivity)
+      _ = c.sr.a * L * 1.2e-11 := by ring
+  · have e : c.sr.y0 + c.rh - c.sr.a * (c.g - mlfn c.e0 c.e1 c.e2 c.e3 lat') * cos (c.ns * adjustLon (lon - c.sr.long0))
+        - (c.sr.y0 + c.rh - c.sr.a * (c.g - mlfn c.e0 c.e1 c.e2 c.e3 lat) * cos (c.ns * adjustLon (lon - c.sr.long0)))
+        = (c.sr.a * (mlfn c.e0 c.e1 c.e2 c.e3 lat' - mlfn c.e0 c.e1 c.e2 c.e3 lat)) * cos (c.ns * adjustLon (lon - c.sr.long0)) := by
+      ring
+    rw [e, abs_mul, abs_mul, abs_of_pos ha]
+    calc _ ≤ c.sr.a * (L * 1.2e-11) * 1 :=
+          mul_le_mul (mul_le_mul_of_nonneg_left hm2 ha.le) (abs_cos_le_one _) (abs_nonneg _) (by positivity)
+      _ = c.sr.a * L * 1.2e-11 := by ring
+
+/-! ## the 1 cm clause for the ellipsoidal Lambert conformal conic -/
+
+/-- the LCC forward inside `|φ| ≤ 1.5`, in closed form -/
+theorem fwdLcc_closed (c : LccC ℝ) (lon lat : ℝ) (hlat : |lat| ≤ 1.5) :
+    fwdLcc c lon lat =
+      .ok (c.sr.k0 * (c.sr.a * c.f0 * tsfnz c.e lat (sin lat) ^ c.ns * sin (c.ns * adjustLon (lon - c.sr.long0))) + c.sr.x0,
+           c.sr.k0 * (c.rh - c.sr.a * c.f0 * tsfnz c.e lat (sin lat) ^ c.ns * cos (c.ns * adjustLon (lon - c.sr.long0))) + c.sr.y0) := by
+  obtain ⟨g1, g2⟩ := lcc_guards lat hlat
+  simp only [fwdLcc, le_real, gt_real, abs_real, halfPi_real, epsln_real, pi_real, lit_two, g1, g2,
+    decide_false, decide_true, if_false, if_true, Bool.false_eq_true, sin_real, cos_real, pow_real,
+    bind, Except.bind, pure, Except.pure]
+
+/-- **lcc_reproject_within** (ellipsoidal LCC, both cone signs, the 1 cm clause over ℝ): for `0 ≤ e ≤ 0.3`,
+`|ns| ≤ 1`, `|φ| ≤ 1.49`: project, un-project and project again all succeed and reproduce x and y within
+`4e-10·|k0·R|`, `R = a·F0·ts^ns` the cone radius of the position (8 mm at R = 2e7 m, 2.6 mm at R = a). -/
+theorem C08_lcc_reproject_within (c : LccC ℝ) (hk : c.sr.k0 ≠ 0)
+    (sgn : (0 < c.ns ∧ 0 < c.sr.a * c.f0) ∨ (c.ns < 0 ∧ c.sr.a * c.f0 < 0))
+    (he0 : 0 ≤ c.e) (he3 : c.e ≤ 0.3) (hns : |c.ns| ≤ 1) (lon lat : ℝ) (hlat : |lat| ≤ 1.49)
+    (hlon : |lon| ≤ sPi) (hdl : |lon - c.sr.long0| ≤ sPi)
+    (h1 : -π < c.ns * (lon - c.sr.long0)) (h2 : c.ns * (lon - c.sr.long0) ≤ π) :
+    ∃ x y lat' x' y', fwdLcc c lon lat = .ok (x, y) ∧ invLcc c x y = .ok (lon, lat') ∧
+      fwdLcc c lon lat' = .ok (x', y') ∧
+      |x' - x| ≤ 4e-10 * |c.sr.k0 * (c.sr.a * c.f0 * tsfnz c.e lat (sin lat) ^ c.ns)| ∧
+      |y' - y| ≤ 4e-10 * |c.sr.k0 * (c.sr.a * c.f0 * tsfnz c.e lat (sin lat) ^ c.ns)| := by
+  have he1 : c.e < 1 := by linarith
+  have hpi : (3.14 : ℝ) < π := pi_gt_d2
+  have hlat15 : |lat| ≤ 1.5 := by linarith
+  obtain ⟨lat', hinv, hb⟩ := C08_lcc_inv_within c hk sgn he0 he3 lon lat hlat15 hlon hdl h1 h2
+  have hlat' : |lat'| ≤ 1.5 := by
+    have := abs_sub_abs_le_abs_sub lat' lat
+    linarith
+  rw [fwdLcc_closed c lon lat hlat15] at hinv
+  simp only [Except.bind] at hinv
+  refine ⟨_, _, lat', _, _, fwdLcc_closed c lon lat hlat15, hinv, fwdLcc_closed c lon lat' hlat', ?_⟩
+  -- the cone radii
+  have hts := tsfnz_pos c.e lat (by linarith) (abs_esin_lt_one c.e lat he0 he1)
+  have hts' := tsfnz_pos c.e lat' (by linarith) (abs_esin_lt_one c.e lat' he0 he1)
+  set ts := tsfnz c.e lat (sin lat) with htsd
+  set ts' := tsfnz c.e lat' (sin lat') with htsd'
+  set th := c.ns * adjustLon (lon - c.sr.long0) with hth
+  have hl := logTs_sin_lipschitz c.e he0 he1 lat' lat (by linarith) (by linarith)
+  have hD : |log ts' - log ts| ≤ 2e-10 := by
+    rw [htsd, htsd', log_tsfnz c.e lat he0 he1 (by linarith), log_tsfnz c.e lat' he0 he1 (by linarith)]
+    calc _ ≤ 1 / 0.06 * |lat' - lat| := hl
+      _ ≤ 1 / 0.06 * 1.2e-11 := mul_le_mul_of_nonneg_left hb (by norm_num)
+      _ ≤ 2e-10 := by norm_num
+  have hratio : ts' ^ c.ns = ts ^ c.ns * exp (c.ns * (log ts' - log ts)) := by
+    rw [rpow_def_of_pos hts', rpow_def_of_pos hts, ← exp_add]; congr 1; ring
+  have ht1 : |c.ns * (log ts' - log ts)| ≤ 2e-10 := by
+    rw [abs_mul]
+    calc |c.ns| * |log ts' - log ts| ≤ 1 * 2e-10 := mul_le_mul hns hD (abs_nonneg _) (by norm_num)
+      _ = 2e-10 := by ring
+  have hexp : |exp (c.ns * (log ts' - log ts)) - 1| ≤ 4e-10 := by
+    have := Real.abs_exp_sub_one_le (x := c.ns * (log ts' - log ts)) (by linarith)
+    linarith
+  set R := c.sr.a * c.f0 * ts ^ c.ns with hR
+  have hR' : c.sr.a * c.f0 * ts' ^ c.ns = R * exp (c.ns * (log ts' - log ts)) := by rw [hratio, hR]; ring
+  have hdR : |c.sr.k0 * (R * exp (c.ns * (log ts' - log ts)) - R)| ≤ 4e-10 * |c.sr.k0 * R| := by
+    have : c.sr.k0 * (R * exp (c.ns * (log ts' - log ts)) - R) = (c.sr.k0 * R) * (exp (c.ns * (log ts' - log ts)) - 1) := by ring
+    rw [this, abs_mul, mul_comm]
+    exact mul_le_mul_of_nonneg_right hexp (abs_nonneg _)
+  rw [hR']
+  constructor
+  · have e : c.sr.k0 * (R * exp (c.ns * (log ts' - log ts)) * sin th) + c.sr.x0 - (c.sr.k0 * (R * sin th) + c.sr.x0)
+        = c.sr.k0 * (R * exp (c.ns * (log ts' - log ts)) - R) * sin th := by ring
+    rw [e, abs_mul]
+    calc _ ≤ 4e-10 * |c.sr.k0 * R| * 1 :=
+          mul_le_mul hdR (abs_sin_le_one _) (abs_nonneg _) (by positivity)
+      _ = _ := by ring
+  · have e : c.sr.k0 * (c.rh - R * exp (c.ns * (log ts' - log ts)) * cos th) + c.sr.y0 - (c.sr.k0 * (c.rh - R * cos th) + c.sr.y0)
+        = -(c.sr.k0 * (R * exp (c.ns * (log ts' - log ts)) - R)) * cos th := by ring
+    rw [e, abs_mul, abs_neg]
+    calc _ ≤ 4e-10 * |c.sr.k0 * R| * 1 :=
+          mul_le_mul hdR (abs_cos_le_one _) (abs_nonneg _) (by positivity)
+      _ = _ := by ring
+
 end GeomV.C08
